@@ -81,6 +81,7 @@ type Request struct {
 	Target     string   `json:"target"`
 	Trace      bool     `json:"trace"`
 	ListHashes bool     `json:"list_hashes"`
+	Property   string   `json:"property"`
 }
 
 type ViolationOut struct {
@@ -88,6 +89,7 @@ type ViolationOut struct {
 	Property    string         `json:"property"`
 	Oracle      string         `json:"oracle"`
 	Fingerprint string         `json:"fingerprint"`
+	Class       string         `json:"class"`
 	Message     string         `json:"message"`
 	Step        int            `json:"step"`
 	Outcome     string         `json:"outcome"`
@@ -539,7 +541,7 @@ func cmdRun(args []string) int {
 				if i+(cnt-1)*w >= total {
 					cnt = (total - i + w - 1) / w
 				}
-				req := Request{Scenario: sp.Name, Seed: seed, Start: i, Stride: w, Count: cnt, Recheck: 64, MaxViol: 3, Mode: "run"}
+				req := Request{Scenario: sp.Name, Seed: seed, Start: i, Stride: w, Count: cnt, Recheck: 64, MaxViol: 4, Mode: "run", Property: plan.ID}
 				resps[i], errs[i] = runWorker(b, req, 2, timeout)
 			}(i)
 		}
@@ -571,14 +573,18 @@ func cmdRun(args []string) int {
 	scenOf := map[string]string{}
 	var fps []string
 	for _, v := range m.Violations {
-		if _, ok := byFP[v.Fingerprint]; !ok {
-			byFP[v.Fingerprint] = v
-			scenOf[v.Fingerprint] = strings.SplitN(v.Summary, ": ", 2)[0]
-			fps = append(fps, v.Fingerprint)
+		if v.Class == "" {
+			v.Class = v.Fingerprint
+		}
+		if _, ok := byFP[v.Class]; !ok {
+			byFP[v.Class] = v
+			scenOf[v.Class] = strings.SplitN(v.Summary, ": ", 2)[0]
+			fps = append(fps, v.Class)
 		}
 	}
 	sort.Strings(fps)
 	exit := 0
+	reported := map[string]bool{}
 	var vioRecords, knownRecords, crossRecords []map[string]any
 	for _, fp := range fps {
 		v := byFP[fp]
@@ -593,6 +599,14 @@ func cmdRun(args []string) int {
 		if err != nil {
 			fatal2("violation %s found but could not be confirmed: %v", fp, err)
 		}
+		// the reported fingerprint is that of the minimised run
+		fp, _ = rp.Violation["fingerprint"].(string)
+		if reported[fp] {
+			continue
+		}
+		reported[fp] = true
+		v.Oracle, _ = rp.Violation["oracle"].(string)
+		v.Message, _ = rp.Violation["message"].(string)
 		path := writeReplay(rp)
 		kf := findKnown(known, plan.ID, fp)
 		rec := map[string]any{"fingerprint": fp, "oracle": v.Oracle, "message": firstLine(v.Message), "replay": path, "scenario": scen}
@@ -629,7 +643,7 @@ func findKnown(known []KnownFinding, prop, fp string) *KnownFinding {
 }
 
 func minimiseAndConfirm(b *build, scen string, seed uint64, v ViolationOut) (*Replay, error) {
-	resp, err := runWorker(b, Request{Scenario: scen, Mode: "shrink", TapeS: v.TapeS, TapeW: v.TapeW, Target: v.Fingerprint}, 2, 15*time.Minute)
+	resp, err := runWorker(b, Request{Scenario: scen, Mode: "shrink", TapeS: v.TapeS, TapeW: v.TapeW, Target: v.Class}, 2, 15*time.Minute)
 	if err != nil {
 		return nil, err
 	}
@@ -642,8 +656,8 @@ func minimiseAndConfirm(b *build, scen string, seed uint64, v ViolationOut) (*Re
 	if err != nil {
 		return nil, err
 	}
-	if len(c.Violations) == 0 || c.Violations[0].Fingerprint != v.Fingerprint {
-		return nil, fmt.Errorf("minimised replay does not reproduce %s in a fresh process (got %d violations)", v.Fingerprint, len(c.Violations))
+	if len(c.Violations) == 0 || c.Violations[0].Class != v.Class || c.Violations[0].Fingerprint != mv.Fingerprint {
+		return nil, fmt.Errorf("minimised replay does not reproduce %s in a fresh process (got %d violations)", v.Class, len(c.Violations))
 	}
 	if len(c.Traces) == 1 && len(resp.Traces) == 1 && c.Traces[0] != resp.Traces[0] {
 		return nil, fmt.Errorf("replay trace diverged between processes")
@@ -652,7 +666,7 @@ func minimiseAndConfirm(b *build, scen string, seed uint64, v ViolationOut) (*Re
 	return &Replay{Version: 1, Property: v.Property, Scenario: scen, Backend: "A", VerifSeed: seed, Run: v.Run,
 		Build: map[string]any{"race": strings.Contains(b.Dir, "race"), "fine_grain": strings.Contains(b.Dir, "fine")},
 		TapeS: mv.TapeS, TapeW: mv.TapeW,
-		Violation: map[string]any{"oracle": cv.Oracle, "fingerprint": cv.Fingerprint, "message": cv.Message, "step": cv.Step, "outcome": cv.Outcome},
+		Violation: map[string]any{"oracle": cv.Oracle, "fingerprint": cv.Fingerprint, "class": cv.Class, "message": cv.Message, "step": cv.Step, "outcome": cv.Outcome},
 		Summary:   cv.Summary, Faults: cv.Faults, Trace: cv.Trace, Log: cv.Log, Minimised: true, ShrinkTests: mv.ShrinkTests}, nil
 }
 
@@ -812,6 +826,50 @@ func cmdReplay(args []string) int {
 	return 0
 }
 
+// cmdDebug executes one run by index and prints its trace.
+func cmdDebug(args []string) int {
+	fs := flag.NewFlagSet("debug", flag.ExitOnError)
+	scen := fs.String("scenario", "", "scenario")
+	run := fs.Int("run", 0, "run index")
+	race := fs.Bool("race", false, "race build")
+	findCapped := fs.Int("find", 0, "search this many runs for a non-ok outcome first")
+	fs.Parse(args)
+	b, err := buildSimTree(buildOpts{Race: *race})
+	if err != nil {
+		fatal2("%v", err)
+	}
+	if *findCapped > 0 {
+		r, err := runWorker(b, Request{Scenario: *scen, Seed: seedFromEnv(), Start: 0, Stride: 1, Count: *findCapped, Mode: "run", MaxViol: 1000}, 2, 10*time.Minute)
+		if err != nil {
+			fatal2("%v", err)
+		}
+		for _, s := range r.Samples {
+			fmt.Printf("sample run=%d outcome=%s steps=%d policy=%s %s\n", s.Run, s.Outcome, s.Steps, s.Policy, s.Summary)
+		}
+		fmt.Println(r.Outcomes, r.HarnessError)
+		return 0
+	}
+	resp, err := runWorker(b, Request{Scenario: *scen, Seed: seedFromEnv(), Start: *run, Mode: "debug"}, 2, 5*time.Minute)
+	if err != nil {
+		fatal2("%v", err)
+	}
+	fmt.Println(resp.Outcomes, resp.HarnessError)
+	for _, v := range resp.Violations {
+		fmt.Println(v.Summary)
+		n := len(v.Trace)
+		for i, l := range v.Trace {
+			if i < 150 || i > n-150 {
+				fmt.Println("  ", l)
+			}
+		}
+		for _, l := range v.Log {
+			fmt.Println("  LOG", l)
+		}
+		fmt.Println(v.Fingerprint, v.Message)
+	}
+	return 0
+}
+
 func cmdScenarios() int {
 	b, err := buildSimTree(buildOpts{})
 	if err != nil {
@@ -922,6 +980,8 @@ func main() {
 		code = cmdSelftest(os.Args[2:])
 	case "scenarios":
 		code = cmdScenarios()
+	case "debug":
+		code = cmdDebug(os.Args[2:])
 	default:
 		fmt.Fprintln(os.Stderr, "unknown command", os.Args[1])
 	}
